@@ -43,6 +43,8 @@ OpsTxt ==
   {O("txt.style", a, b, a) : a \in {0, 2}, b \in {0, 1}}
 
 OpsCnt == {O("cnt.inc", 0, 0, v) : v \in {1, 2}}
+\* with wrap-around: +MaxInt32, -MaxInt32, -3
+OpsCntWrap == {O("cnt.inc", 0, 0, v) : v \in {1, 100, 101, 102}}
 
 OpsTree ==
   {O("tree.edit", a, b, v) : a \in 0..1, b \in 0..2, v \in {0, 1, 4}} \cup
